@@ -494,6 +494,10 @@ func classifyClientReturns(P *core.Program, fn *ssa.Function, msgParam int, dept
 			mr.kind, mr.reply = "reject", rej[0]
 		case nilFwd && nilRej && errNil:
 			mr.kind = "drop"
+		case nilFwd && nilRej && !errNil && onlyWithoutCtxState(fn, rb):
+			// the per-connection state is missing from the context (ServeNostrStart was never run for
+			// it): the session ends with an error where a failed type assertion used to panic
+			mr.kind = "nostate"
 		default:
 			mr.kind = "other"
 			mr.detail = fmt.Sprintf("forward=%v(%d) reject=%v(%d) err-nil=%v", fok, len(fwd), rok, len(rej), errNil)
@@ -545,6 +549,7 @@ func runMwTemplate(c *core.Ctx) {
 				nf++
 			case "reject":
 				nr++
+			case "nostate":
 			default:
 				bad = append(bad, fmt.Sprintf("%s: %s %s", P.Pos(r.ret.Pos()), r.kind, r.detail))
 			}
@@ -1259,6 +1264,72 @@ func valueImpliesNonNil(v ssa.Value, val bool, ptr string, depth int) bool {
 			}
 		}
 		return n > 0
+	}
+	return false
+}
+
+// onlyWithoutCtxState: every way to block b of fn passes a test that found the per-connection
+// state absent from the context — the comma-ok assertion of `ctx.Value(key)` failed, or the
+// asserted value (or a field of it) is nil; the test may sit in a private helper that hands the
+// state out (`v, err := m.session(ctx); if err != nil`).
+func onlyWithoutCtxState(fn *ssa.Function, b *ssa.BasicBlock) bool {
+	alts, ok := an.ReachCondsDeep(fn, b)
+	if !ok || len(alts) == 0 {
+		return false
+	}
+	for _, cs := range alts {
+		found := false
+		for _, cd := range cs {
+			if ctxStateAbsent(cd) {
+				found = true
+			}
+		}
+		if !found {
+			return false
+		}
+	}
+	return true
+}
+
+func ctxValueAssert(v ssa.Value) *ssa.TypeAssert {
+	ex, ok := v.(*ssa.Extract)
+	if !ok {
+		return nil
+	}
+	ta, ok := ex.Tuple.(*ssa.TypeAssert)
+	if !ok || !ta.CommaOk {
+		return nil
+	}
+	call, ok := ta.X.(*ssa.Call)
+	if !ok || !call.Call.IsInvoke() || call.Call.Method.Name() != "Value" || !strings.HasSuffix(call.Call.Value.Type().String(), "context.Context") {
+		return nil
+	}
+	return ta
+}
+
+func ctxStateAbsent(cd an.Cond) bool {
+	cd = an.NormCond(cd)
+	if ex, ok := cd.V.(*ssa.Extract); ok && ex.Index == 1 && ctxValueAssert(ex) != nil {
+		return !cd.True
+	}
+	b, ok := cd.V.(*ssa.BinOp)
+	if !ok || (b.Op != token.EQL && b.Op != token.NEQ) || !an.IsNilConst(b.Y) || (b.Op == token.EQL) != cd.True {
+		return false
+	}
+	v := an.LoadedValue(b.X)
+	for i := 0; i < 3; i++ {
+		if ex, ok := v.(*ssa.Extract); ok && ex.Index == 0 && ctxValueAssert(ex) != nil {
+			return true
+		}
+		u, ok := v.(*ssa.UnOp)
+		if !ok {
+			return false
+		}
+		fa, ok := u.X.(*ssa.FieldAddr)
+		if !ok {
+			return false
+		}
+		v = an.LoadedValue(fa.X)
 	}
 	return false
 }
